@@ -72,7 +72,8 @@ var confinePkgURLs = []string{
 	"{REPO}/x86_64/p-1.0-r0.apk", "{REPO}/dl/0", "{REPO}/x86_64/../../w/canary2/evil.apk", "file://{REPO}/x86_64/p-1.0-r0.apk", "../../p.apk", "x86_64/p.apk", "...apk",
 }
 
-var confinePkgChecksums = []string{"", "", "", "Q1../../../../evil", "../../../evil", "Q1", "Q", "Q1!!!!", "Q1Li4vLi4vLi4vZXZpbA==" /* base64("../../../evil") */, "Q2abc", "Q1/../../../w/canary2/evil"}
+var confinePkgChecksums = []string{"", "", "", "Q1../../../../evil", "../../../evil", "Q1", "Q", "Q1!!!!", "Q1Li4vLi4vLi4vZXZpbA==" /* base64("../../../evil") */, "Q2abc", "Q1/../../../w/canary2/evil",
+	"Q1/../../../../../../w/canary2/evil", "../../../../../../evil", "Q1/../../../../../../../../../../../../../../../{T}/w/r/canary/evil"}
 
 func confineGenRec(r *Rng) confinePkgRec {
 	p := confinePkgRec{URL: Pick(r, confinePkgURLs), Name: Pick(r, confineHostileFields), Checksum: Pick(r, confinePkgChecksums)}
@@ -98,7 +99,7 @@ func confineGenPkgCache(r *Rng) confineCase {
 	for i := 0; i < n; i++ {
 		c.Pkgs = append(c.Pkgs, confineGenRec(r))
 	}
-	if r.Chance(50) {
+	if r.Chance(70) {
 		// the ordinary miss path needs the right checksum
 		for i := range c.Pkgs {
 			c.Pkgs[i].Checksum = ""
@@ -113,8 +114,10 @@ func confineGenPkgCache(r *Rng) confineCase {
 			sp.Name, sp.Origin = "../../../evil", "../../../../evil"
 		}
 	}
-	if r.Chance(30) {
-		dh := Pick(r, []string{"", "../../../../evil", "../../../w/canary2/evil", "/{T}/w/r/canary/evil", "zz", "../../../w/r/root2/secret"})
+	if r.Chance(20) {
+		dh := Pick(r, []string{"", "../../../../evil", "../../../w/canary2/evil", "/{T}/w/r/canary/evil", "zz", "../../../w/r/root2/secret",
+			// an existing data section outside the cache (confineRunPkgCache puts it there): a hit would regenerate its .dat.tar next to it
+			"../../../../w/canary2/old", "../../../w/canary2/old", "../../../../../../../../../../../../../../{T}/w/canary2/old"})
 		sp.DataHashOverride = &dh
 	}
 	c.SP = &sp
@@ -128,7 +131,7 @@ func confinePkgOf(t *confineTree, p confinePkgRec, validSum string) apk.Installa
 		}
 		return s
 	}
-	sum := p.Checksum
+	sum := sub(p.Checksum)
 	if sum == "" {
 		sum = validSum
 	}
@@ -145,6 +148,7 @@ func confineRunPkgRec(c confineCase) []Step {
 	for _, p := range c.Pkgs {
 		// the model's tree lives under /T; local repositories under /T/repo
 		p.URL, p.Name, p.Version = strings.ReplaceAll(confineModelStr(p.URL), "{REPO}", "/T/repo"), confineModelStr(p.Name), confineModelStr(p.Version)
+		p.Checksum = confineModelStr(p.Checksum)
 		pkg := confinePkgOf(nil, p, "Q1AAAAAAAAAAAAAAAAAAAAAAAAAAA=")
 		path, esc, urlok := "", "", "0"
 		tags := []string{}
@@ -205,6 +209,8 @@ func confineRunPkgCache(c confineCase) []Step {
 		pkgs = append(pkgs, confinePkgOf(t, p, validSum))
 		descs = append(descs, p.String())
 	}
+	// a data section that lies outside the cache (what a `datahash` string with separators could name)
+	confineMust(os.WriteFile(filepath.Join(t.top, "w/canary2/old.dat.tar.gz"), a0.data, 0o644))
 	des := t.designated()
 	before := t.snapshot(des)
 	var errs [2]error
